@@ -21,3 +21,13 @@ pub mod candidate {
         crate::transports::ice::IceServerUri::verif_parse(input)
     }
 }
+
+/// Raw-datagram readers used by the shared-socket demultiplexers and the request authentication (C06).
+pub mod inbound {
+    pub fn username_from_stun_bytes(bytes: &[u8]) -> Option<String> {
+        crate::transports::ice::shared_tcp::username_from_stun_bytes(bytes)
+    }
+    pub fn peer_ufrag_from_binding_request(bytes: &[u8]) -> Option<String> {
+        crate::transports::ice::shared_tcp::peer_ufrag_from_binding_request(bytes)
+    }
+}
